@@ -241,7 +241,7 @@ fn stage_b(q: u8, rep: &mut Report) {
 fn stage_b_multi(ctx: &Ctx, q: u8, rep: &mut Report) {
     let zz = zigzag();
     let mut rng = Rng::new(ctx.seed ^ 0xC11B, q as u64);
-    let n = ctx.n(20_000, 300_000);
+    let n = ctx.n(20_000, 3_000_000);
     for it in 0..n {
         let with_dc = rng.chance(1, 2);
         let first = if with_dc { 1 } else { 0 };
